@@ -426,6 +426,21 @@ func (c *canon) path(p *Path, rename map[string]string) string {
 	for ; ci < len(p.Conds); ci++ {
 		emitCond(p.Conds[ci])
 	}
+	// the values the loop variables had when each loop was entered (a counter started at 1 is not one started at 0)
+	{
+		var ins []string
+		for _, phis := range p.LoopIn {
+			for phi, t := range phis {
+				if t != nil && len(t.Args) > 0 && t.Args[0] != nil {
+					ins = append(ins, "lv@"+c.site(siteKey(phi))+"="+c.term(t.Args[0], rename))
+				}
+			}
+		}
+		if len(ins) > 0 {
+			sort.Strings(ins)
+			sb.WriteString("ENTER(" + strings.Join(ins, ";") + ")")
+		}
+	}
 	switch p.End {
 	case EndReturn:
 		sb.WriteString("RET(")
